@@ -25,7 +25,7 @@ Kinds == Blanks \cup Comments \cup Directives \cup {"resetall"}
 
 KindText(k) ==
   CASE k = "sp" -> " " [] k = "ht" -> "\t" [] k = "ff" -> "\f" [] k = "nl" -> "\n" [] k = "crlf" -> "\r\n"
-    [] k = "lcmt" -> "// c ü\n" [] k = "bcmt" -> "/* c é */" [] k = "ecmt" -> "/**/" [] k = "scmt" -> "/***/"
+    [] k = "lcmt" -> "// c Ã¼\n" [] k = "bcmt" -> "/* c Ã© */" [] k = "ecmt" -> "/**/" [] k = "scmt" -> "/***/"
     [] k = "celldefine" -> "`celldefine " [] k = "endcelldefine" -> "`endcelldefine "
     [] k = "default_nettype" -> "`default_nettype wire " [] k = "timescale" -> "`timescale 1ns/1ps "
     [] k = "unconnected_drive" -> "`unconnected_drive pull1 " [] k = "nounconnected_drive" -> "`nounconnected_drive "
